@@ -191,6 +191,30 @@ def add_zero_fraction(rng, specs, n_extra=1, p_zero_existing=0.3):
     return zero
 
 
+def split_profile(rng, scn):
+    """two-stage use of ONE Profile object, as users do: returns the part of the scenario's ambient that is withheld at
+    construction and appended later with Profile.append -- the currents and the background of some compounds.  The
+    scenario's profile spec is changed in place to the stage-1 content; `append_later(profile, later)` adds the rest."""
+    spec = scn['profile']
+    later = {'H': spec['H'], 'current': spec.get('current'), 'background': {}}
+    spec['current'] = None
+    names = sorted(spec.get('background', {}))
+    for j, ch in enumerate(names):
+        if j == 0 or rng.random() < 0.6:
+            later['background'][ch] = spec['background'].pop(ch)
+    return later
+
+
+def append_later(prf, later):
+    """stage 2: append the withheld currents / background concentrations to the SAME Profile object"""
+    if later.get('current'):
+        nodes = np.array(later['current']['nodes'], dtype=float)
+        names = ['z', 'ua', 'va'] + (['wa'] if later['current'].get('wa') else [])
+        prf.append(nodes[:, :len(names)], names, ['m'] + ['m/s'] * (len(names) - 1), z_col=0)
+    for ch, (c_top, c_bot) in later.get('background', {}).items():
+        prf.append(np.array([[0., c_top], [later['H'], c_bot]]), ['z', ch], ['m', 'kg/m^3'], z_col=0)
+
+
 def build_dbm(sp):
     from tamoc import dbm
     if sp['kind'] == 'inert':
